@@ -159,6 +159,22 @@ func runC15(c *core.Ctx) {
 				map[string]interface{}{"xpath": "id"}, map[string]interface{}{"external": "ext2"}}}}
 		}
 	}
+	if r.Chance(1, 3) {
+		// several fields of the same object that fail on the same record (on the records whose number is not one, or on all): which
+		// failure is reported must not vary between loads of the same schema bytes
+		for i := 0; i < r.Range(2, 5); i++ {
+			name := fmt.Sprintf("%c%dx", 'a'+rune(r.Intn(26)), r.Intn(100))
+			switch r.Intn(4) {
+			case 0:
+				obj[name] = map[string]interface{}{"xpath": r.Pick("id", "f1"), "type": r.Pick("int", "float")}
+			case 1:
+				obj[name] = map[string]interface{}{"custom_func": map[string]interface{}{"name": "vf_fail", "args": []interface{}{map[string]interface{}{"const": omni.FailMarker}}}}
+			default:
+				obj[name] = map[string]interface{}{"xpath": "n", "type": r.Pick("int", "int", "float", "boolean")}
+			}
+		}
+		c.Inc("schemas_with_several_failing_fields_in_one_object")
+	}
 	schema := shuffleJSON(r, doc)
 	ext := map[string]string{"ext1": "E1-" + gen.RandString(r, 4, false), "ext2": "E2"}
 	run := func(sch string) (omni.Transcript, error) {
